@@ -204,6 +204,33 @@ class Iterator:
 # ---------------------------------------------------------------------------------------
 
 
+def _has_unbound(v):
+    if v is UNBOUND:
+        return True
+    if isinstance(v, SIte):
+        return _has_unbound(v.a) or _has_unbound(v.b)
+    return False
+
+
+def _unbound_cond(v):
+    if v is UNBOUND:
+        return True
+    if isinstance(v, SIte):
+        return c_or(c_and(v.c, _unbound_cond(v.a)), c_and(c_not(v.c), _unbound_cond(v.b)))
+    return False
+
+
+def _prune_unbound(v):
+    if isinstance(v, SIte):
+        a, b = _prune_unbound(v.a), _prune_unbound(v.b)
+        if a is UNBOUND:
+            return b
+        if b is UNBOUND:
+            return a
+        return SIte(v.c, a, b)
+    return v
+
+
 _LUT_CACHE = {}
 _TRANSCENDENTAL = {"cos", "sin", "arccos", "exp", "sqrt", "pow", "atan2", "log10"}
 
@@ -258,6 +285,8 @@ class Engine:
         self._aff_mark = 0
         self.backend = "z3"
         self.real_boxes = {}
+        self.merge_marks = []     # (call depth, loop depth) at which each speculative region started
+        self.loop_depth = 0
 
     # -------------------------------------------------------------- path exploration
     def explore(self, run_once, max_paths=5000):
@@ -273,6 +302,9 @@ class Engine:
             self.trace = []
             self.ps = PathSolver()
             self.merge_depth = 0
+            self.merge_marks = []
+            self.loop_depth = 0
+            self.call_depth = 0
             self.heap = []
             self.frames = []
             self.check_results = []
@@ -494,6 +526,23 @@ class Engine:
         self.heap = list(objs)
         for o, h in zip(objs, contents):
             self._set_content(o, h)
+
+    def merge_begin(self):
+        self.merge_depth += 1
+        self.merge_marks.append((self.call_depth, self.loop_depth))
+
+    def merge_end(self):
+        self.merge_depth -= 1
+        self.merge_marks.pop()
+
+    def jump_crosses_merge(self, is_return):
+        """would a return / break / continue leave the innermost speculative region?"""
+        if not self.merge_marks:
+            return False
+        cd, ld = self.merge_marks[-1]
+        if is_return:
+            return self.call_depth <= cd
+        return self.call_depth <= cd and self.loop_depth <= ld
 
     def new_heap(self, o):
         self.heap.append(o)
@@ -761,7 +810,20 @@ class Engine:
                 return False
             if len(ia_) != len(ib_):
                 return False
-            return c_and(*[self.veq(x, y) for x, y in zip(ia_, ib_)])
+            conds = []
+            pending = None
+            for x, y in zip(ia_, ib_):
+                try:
+                    cnd = self.veq(x, y)
+                except Unsupported as u:
+                    pending = u
+                    continue
+                if cnd is False:
+                    return False          # decided by another component, whatever the unsupported one is
+                conds.append(cnd)
+            if pending is not None:
+                raise pending
+            return c_and(*conds)
         if isinstance(a, (SDict, dict)) and isinstance(b, (SDict, dict)):
             da = a.d if isinstance(a, SDict) else a
             db = b.d if isinstance(b, SDict) else b
@@ -1032,6 +1094,12 @@ class Engine:
                 v = e.vars[name]
                 if v is UNBOUND:
                     raise PyExc("UnboundLocalError", name)
+                if isinstance(v, SIte) and _has_unbound(v):
+                    # bound on some merged paths only: reading it raises exactly on the others
+                    if self.decide(_unbound_cond(v)):
+                        raise PyExc("UnboundLocalError", name)
+                    v = _prune_unbound(v)
+                    e.vars[name] = v
                 return v
             if e.localnames is not None and name in e.localnames:
                 raise PyExc("UnboundLocalError", name)
@@ -1347,7 +1415,7 @@ class Engine:
             return v
         # symbolic: speculative evaluation of the rest, merged; fall back to forking
         snap = self.snapshot()
-        self.merge_depth += 1
+        self.merge_begin()
         try:
             rest = self.boolop(is_and, vals, i + 1, env)
             after = self.snapshot()
@@ -1355,7 +1423,7 @@ class Engine:
         except (MergeAbort, PyExc, PathInfeasible):
             ok = False
         finally:
-            self.merge_depth -= 1
+            self.merge_end()
         if ok:
             # side effects in `rest` only happen when it is evaluated
             cond_rest = c if is_and else z3.Not(c)
@@ -1377,7 +1445,7 @@ class Engine:
         if isinstance(c, bool):
             return self.eval(node.body if c else node.orelse, env)
         snap = self.snapshot()
-        self.merge_depth += 1
+        self.merge_begin()
         try:
             a = self.eval(node.body, env)
             sa = self.snapshot()
@@ -1388,7 +1456,7 @@ class Engine:
         except (MergeAbort, PyExc, PathInfeasible):
             ok = False
         finally:
-            self.merge_depth -= 1
+            self.merge_end()
         if ok:
             try:
                 self.merge_states(c, sa, sb, snap)
@@ -1734,6 +1802,8 @@ class Engine:
         self.bind_args(fn, env, args, kwargs)
         self.frames.append(env)
         self.call_depth += 1
+        saved_loop = self.loop_depth
+        self.loop_depth = 0
         if self.call_depth > 60:
             raise Unsupported("call depth")
         try:
@@ -1744,6 +1814,7 @@ class Engine:
             return None
         finally:
             self.call_depth -= 1
+            self.loop_depth = saved_loop
             self.frames.pop()
 
     def bind_args(self, fn, env, args, kwargs):
@@ -1949,17 +2020,17 @@ class Engine:
 
     def s_Return(self, node, env):
         v = self.eval(node.value, env) if node.value is not None else None
-        if self.merge_depth:
+        if self.jump_crosses_merge(True):
             raise MergeAbort()
         raise ReturnSignal(v)
 
     def s_Break(self, node, env):
-        if self.merge_depth:
+        if self.jump_crosses_merge(False):
             raise MergeAbort()
         raise BreakSignal()
 
     def s_Continue(self, node, env):
-        if self.merge_depth:
+        if self.jump_crosses_merge(False):
             raise MergeAbort()
         raise ContinueSignal()
 
@@ -1999,7 +2070,7 @@ class Engine:
             return
         if not has_jump(node):
             snap = self.snapshot()
-            self.merge_depth += 1
+            self.merge_begin()
             try:
                 self.exec_block(node.body, env)
                 sa = self.snapshot()
@@ -2010,7 +2081,7 @@ class Engine:
             except (MergeAbort, PyExc, PathInfeasible):
                 ok = False
             finally:
-                self.merge_depth -= 1
+                self.merge_end()
             if ok:
                 try:
                     self.merge_states(c, sa, sb, snap)
@@ -2028,35 +2099,43 @@ class Engine:
     def s_For(self, node, env):
         items = self.iterate(self.force(self.eval(node.iter, env)))
         broke = False
-        for x in items:
-            self.assign_target(node.target, x, env)
-            try:
-                self.exec_block(node.body, env)
-            except BreakSignal:
-                broke = True
-                break
-            except ContinueSignal:
-                continue
+        self.loop_depth += 1
+        try:
+            for x in items:
+                self.assign_target(node.target, x, env)
+                try:
+                    self.exec_block(node.body, env)
+                except BreakSignal:
+                    broke = True
+                    break
+                except ContinueSignal:
+                    continue
+        finally:
+            self.loop_depth -= 1
         if not broke and node.orelse:
             self.exec_block(node.orelse, env)
 
     def s_While(self, node, env):
         n = 0
         broke = False
-        while True:
-            c = self.truth(self.eval(node.test, env))
-            if not self.decide(c):
-                break
-            n += 1
-            if n > self.MAX_LOOP:
-                raise Unsupported("while loop bound")
-            try:
-                self.exec_block(node.body, env)
-            except BreakSignal:
-                broke = True
-                break
-            except ContinueSignal:
-                continue
+        self.loop_depth += 1
+        try:
+            while True:
+                c = self.truth(self.eval(node.test, env))
+                if not self.decide(c):
+                    break
+                n += 1
+                if n > self.MAX_LOOP:
+                    raise Unsupported("while loop bound")
+                try:
+                    self.exec_block(node.body, env)
+                except BreakSignal:
+                    broke = True
+                    break
+                except ContinueSignal:
+                    continue
+        finally:
+            self.loop_depth -= 1
         if not broke and node.orelse:
             self.exec_block(node.orelse, env)
 
